@@ -81,7 +81,7 @@ func (e *exec) call(i int, what string, f func() [][]byte) {
 	p, v, st := vf.Protect(func() { out = f() })
 	e.trans++
 	if p {
-		e.panicked(what, v, st, map[string]any{"party": e.p[i].name})
+		e.panicked(what, v, st, e.p[i].conv, map[string]any{"party": e.p[i].name})
 		return
 	}
 	e.noteState()
@@ -246,7 +246,7 @@ func (e *exec) run() string {
 			var err error
 			p, v, st := vf.Protect(func() { _, err = B.conv.Send([]byte("after the end")) })
 			if p {
-				e.panicked("Send", v, st, nil)
+				e.panicked("Send", v, st, B.conv, nil)
 			} else {
 				e.expect(err != nil, "Send succeeds on a conversation that the peer has ended", nil)
 			}
